@@ -60,13 +60,22 @@ LABELS = {'a': ('a', None), 'b': ('b', None), 'c': ('c', None),
           "a_{'k': 1}": ('a', {'k': 1}), "a_{'k': 2}": ('a', {'k': 2})}
 
 
-def build_tree_node(t):
+def build_tree_node(t, protos=None):
+    """protos (a dict) given: every node is a deepcopy of one prototype node per label, so all nodes of the
+    tree that carry the same label are distinct objects sharing one uid (deepcopy keeps uids)"""
     name, params = LABELS[t[0]]
-    return OptNode(content_of(name, params), nodes_from=[build_tree_node(c) for c in t[1]])
+    kids = [build_tree_node(c, protos) for c in t[1]]
+    if protos is None:
+        return OptNode(content_of(name, params), nodes_from=kids)
+    if t[0] not in protos:
+        protos[t[0]] = OptNode(content_of(name, params))
+    nd = deepcopy(protos[t[0]])
+    nd.nodes_from = kids
+    return nd
 
 
-def build_tree(t):
-    return OptGraph(build_tree_node(t))
+def build_tree(t, shared=False):
+    return OptGraph(build_tree_node(t, {} if shared else None))
 
 
 def tree_coq(t):
@@ -93,10 +102,10 @@ def py_canon(t):
 _W = {}
 
 
-def _w_init(trees):
+def _w_init(trees, shared):
     import logging
     logging.disable(logging.CRITICAL)
-    _W['graphs'] = [build_tree(t) for t in trees]
+    _W['graphs'] = [build_tree(t, sh) for t, sh in zip(trees, shared)]
 
 
 def _w_rows(rng_):
@@ -105,7 +114,7 @@ def _w_rows(rng_):
     return [[j for j, h in enumerate(gs) if gs[i] == h] for i in range(lo, hi)]
 
 
-def eq_rows(trees, graphs, workers):
+def eq_rows(trees, graphs, workers, shared):
     """row i = positions j with graphs[i] == graphs[j] (the real __eq__ on every ordered pair)"""
     n = len(trees)
     if workers <= 1 or n < 800:
@@ -114,7 +123,7 @@ def eq_rows(trees, graphs, workers):
     chunks = [(lo, min(n, lo + step)) for lo in range(0, n, step)]
     rows = []
     with concurrent.futures.ProcessPoolExecutor(max_workers=workers, initializer=_w_init,
-                                                initargs=(trees,)) as ex:
+                                                initargs=(trees, shared)) as ex:
         for part in ex.map(_w_rows, chunks):
             rows.extend(part)
     return rows
@@ -131,8 +140,10 @@ def tree_preamble(trees):
             % c_list([tree_coq(t) for t in trees], 'tree'))
 
 
-def run_tree_pool(ctx, group, trees, workers=1, canary=True):
-    roots = [build_tree_node(t) for t in trees]
+def run_tree_pool(ctx, group, trees, workers=1, canary=True, shared=None):
+    """shared: per pool entry, build the tree from deepcopies sharing uids (the Coq side sees the tree only)"""
+    shared = shared or [False] * len(trees)
+    roots = [build_tree_node(t, {} if sh else None) for t, sh in zip(trees, shared)]
     graphs = [OptGraph(r) for r in roots]
     for t, g in zip(trees, graphs):      # == and descriptive_id are total on trees
         try:
@@ -148,7 +159,7 @@ def run_tree_pool(ctx, group, trees, workers=1, canary=True):
         if r.descriptive_id != s:
             ctx.disagree(group, {'kind': 'tree-pair', 't1': tree_json(t), 't2': tree_json(t)},
                          'the identifier of the root node differs from the identifier of the tree graph')
-    rows = eq_rows(trees, graphs, workers)
+    rows = eq_rows(trees, graphs, workers, shared)
     by_id = {}
     for j, s in enumerate(ids):
         by_id.setdefault(s, []).append(j)
@@ -174,7 +185,8 @@ def run_tree_pool(ctx, group, trees, workers=1, canary=True):
     g = ctx.group(group)
     canon_ids = [py_canon(t) for t in trees]
     for i, (t, (ag, ho)) in enumerate(zip(trees, res)):
-        ctx.count(group, key=('tree', t), nontrivial=tree_size(t) >= 2, size=tree_size(t))
+        ctx.count(group, key=('tree', t, shared[i]), nontrivial=tree_size(t) >= 2, size=tree_size(t),
+                  shared_uids=shared[i])
         g['evaluations'] += n - 1          # the row holds n ordered pairs
         d = g['distribution'].setdefault('pairs', {})
         d['equal'] = d.get('equal', 0) + len(rows[i])
@@ -185,6 +197,7 @@ def run_tree_pool(ctx, group, trees, workers=1, canary=True):
             bad = sorted(set(expect) ^ set(rows[i])) or sorted(set(expect) ^ set(id_rows[i]))
             j = bad[0] if bad else i
             case = {'kind': 'tree-pair', 't1': tree_json(t), 't2': tree_json(trees[j]),
+                    'shared_uids1': shared[i], 'shared_uids2': shared[j],
                     'observed_eq': j in rows[i], 'observed_id1': ids[i], 'observed_id2': ids[j]}
             if not ho:
                 ctx.violate(group, case, 'tree equality / identifier equality differs from label-preserving '
@@ -205,12 +218,12 @@ def p_key(p):
     return None if p is None else repr(p)
 
 
-def random_spec(rng, n, single_sink, names, params_on):
+def random_spec(rng, n, single_sink, names, params_on, tree=False):
     """spec = list of [name, params, parents] ; node 0 is a sink; every node j > 0 gets its children
     among the nodes before it, so the graph is acyclic"""
     spec = [[rng.choice(names), (rng.choice(PARAMS) if params_on else None), []] for _ in range(n)]
     for j in range(1, n):
-        k = rng.choice([1, 1, 1, 2, 2, 3]) if (single_sink or rng.random() < 0.75) else 0
+        k = 1 if tree else (rng.choice([1, 1, 1, 2, 2, 3]) if (single_sink or rng.random() < 0.75) else 0)
         for child in rng.sample(range(j), min(k, j)):
             spec[child][2].append(j)
     for s in spec:
@@ -225,11 +238,16 @@ def content_of(name, params):
     return c
 
 
-def build(spec, order, how):
+def build(spec, order, how, dups=None):
     """builds a fresh graph from spec; order = listing order requested (permutation of the spec
     positions); how: 'nodes' (assign the nodes list), 'ctor' (OptGraph(list): add_node order),
-    'roots' (OptGraph(list of root nodes)).  Returns (graph, nodes by spec position)"""
+    'roots' (OptGraph(list of root nodes)); dups = {j: i}: node j is made as deepcopy(node i), i.e. a distinct
+    object with the same uid (content then set from the spec).  Returns (graph, nodes by spec position)"""
     nodes = [OptNode(content_of(s[0], s[1])) for s in spec]
+    for j, i in (dups or {}).items():
+        if j < len(nodes) and i < len(nodes):
+            nodes[j] = deepcopy(nodes[i])
+            nodes[j].content = content_of(spec[j][0], spec[j][1])
     for nd, s in zip(nodes, spec):
         nd.nodes_from = [nodes[p] for p in s[2]]
     listing = [nodes[i] for i in order]
@@ -295,10 +313,14 @@ def gobs_coq(o):
                c_bool(o['copy_eq2']), c_bs(o['copy_gid'])))
 
 
-def variant(rng, spec, base_graph, base_nodes):
-    """an isomorphic presentation of the graph described by spec.  Returns (graph, nodes by spec position, how)"""
+HOWS = ['deepcopy-relist', 'rebuild-nodes', 'rebuild-ctor', 'rebuild-roots', 'deepcopy']
+
+
+def variant(rng, spec, base_graph, base_nodes, hows=HOWS):
+    """an isomorphic presentation of the graph described by spec (rebuild-*: from fresh nodes).
+    Returns (graph, nodes by spec position, how)"""
     n = len(spec)
-    how = rng.choice(['deepcopy-relist', 'rebuild-nodes', 'rebuild-ctor', 'rebuild-roots', 'deepcopy'])
+    how = rng.choice(hows)
     if how.startswith('deepcopy'):
         idx = {id(nd): i for i, nd in enumerate(base_nodes)}
         order0 = [idx[id(nd)] for nd in base_graph.nodes]
@@ -437,6 +459,7 @@ def run_dags(ctx, n_triples):
         params_on = rng.random() < 0.5
         spec = random_spec(rng, n, single, names, params_on)
         flavour = 'dag'
+        dups = {}
         r = rng.random()
         if r < 0.04:
             spec = make_cyclic(rng, spec)
@@ -447,8 +470,20 @@ def run_dags(ctx, n_triples):
         elif r < 0.08:
             spec = []
             flavour = 'empty'
-        g1, nodes1 = build(spec, list(range(len(spec))), rng.choice(['nodes', 'ctor', 'roots']))
-        g2, nodes2, how2 = variant(rng, spec, g1, nodes1)
+        elif r < 0.26 and n >= 2:
+            # some nodes are deepcopies of other nodes of the SAME graph (distinct objects, shared uid): a tree
+            # (half of the time) or a DAG, the copies at any position (leaf / inner / root)
+            if rng.random() < 0.5:
+                spec = random_spec(rng, n, True, names, params_on, tree=True)
+            for _ in range(rng.choice([1, 1, 2, 3])):
+                i, j = rng.sample(range(n), 2)
+                i = dups.get(i, i)
+                if i != j and j not in dups.values():
+                    dups[j] = i
+                    spec[j][0], spec[j][1] = spec[i][0], deepcopy(spec[i][1])
+            flavour = 'shared-uid'
+        g1, nodes1 = build(spec, list(range(len(spec))), rng.choice(['nodes', 'ctor', 'roots']), dups)
+        g2, nodes2, how2 = variant(rng, spec, g1, nodes1, HOWS[1:4] if dups and rng.random() < 0.7 else HOWS)
         f12 = index_map(g1, nodes1, g2, nodes2)
         if rng.random() < 0.4:
             g3, nodes3, how3 = variant(rng, spec, g2, nodes2)
@@ -456,7 +491,9 @@ def run_dags(ctx, n_triples):
             claim23 = True
         else:
             spec3, how3 = mutate_spec(rng, spec, names) if spec else ([['a', None, []]], 'add-node')
-            g3, nodes3 = build(spec3, rng.sample(range(len(spec3)), len(spec3)), 'nodes')
+            # the near-miss keeps the shared uids half of the time
+            g3, nodes3 = build(spec3, rng.sample(range(len(spec3)), len(spec3)), 'nodes',
+                               dups if rng.random() < 0.5 else None)
             f23 = []
             claim23 = False
         # fresh identities change a uid-derived label: then only deep copies are isomorphic presentations
@@ -513,9 +550,12 @@ def run_dags(ctx, n_triples):
 def run(ctx):
     ctx.rule = ('(a) trees: every ordered pair of labelled plane trees (quick: <=5 nodes over {a,b} and <=3 nodes over 4 '
                 'labels two of which differ in params only; thorough: <=6 nodes over {a,b}, <=4 nodes over {a,b,c} '
-                'and <=4 nodes over the 4 labels); one evaluation = one ordered pair (real == called); '
+                'and <=4 nodes over the 4 labels; plus a pool holding every tree <=4 (thorough <=5) nodes over {a,b} twice: '
+                'from fresh nodes and from deepcopies sharing one uid per label); one evaluation = one ordered pair '
+                '(real == called); '
                 'distinct non-trivial = distinct tree with >=2 nodes (row of the pair matrix).  (b) dags: triples '
-                '(g1, presentation g2 of g1 [deepcopy / relisted / parents reordered / rebuilt with fresh uids], '
+                '(g1 [18%: some nodes are deepcopies of other nodes of the same graph = distinct objects with one uid], '
+                'presentation g2 of g1 [deepcopy / relisted / parents reordered / rebuilt with fresh uids], '
                 'g3 = another presentation or a near-miss mutation); one evaluation = one unordered pair of the '
                 'triple (== observed both ways, ids of graph and of every node); non-trivial = >=2 nodes and the '
                 'two snapshots differ')
@@ -535,6 +575,11 @@ def run(ctx):
     alpha = ['a', 'b', "a_{'k': 1}", "a_{'k': 2}"]
     run_tree_pool(ctx, 'trees-params', all_trees(ctx.pick(3, 4), alpha), workers=ctx.pick(1, 6))
     ctx.set_exhaustive('trees-params', True)
+    # every tree once from fresh nodes and once from deepcopies that share one uid per label
+    base = all_trees(ctx.pick(4, 5), 'ab')
+    run_tree_pool(ctx, 'trees-shared-uid', base + base, workers=ctx.pick(1, 6),
+                  shared=[False] * len(base) + [True] * len(base))
+    ctx.set_exhaustive('trees-shared-uid', True)
     if ctx.tier == 'thorough':
         run_tree_pool(ctx, 'trees3', all_trees(4, 'abc'), workers=1)
         ctx.set_exhaustive('trees3', True)
@@ -560,7 +605,8 @@ def replay(ctx, payload):
         return
     if case.get('kind') == 'tree-pair':
         trees = [tree_from_json(case['t1']), tree_from_json(case['t2'])]
-        run_tree_pool(ctx, 'replay', trees, canary=False)
+        run_tree_pool(ctx, 'replay', trees, canary=False,
+                      shared=[bool(case.get('shared_uids1')), bool(case.get('shared_uids2'))])
     elif case.get('kind') == 'dag-triple':
         g1, g2, g3 = (graph_from_snapshot(case[k]) for k in ('g1', 'g2', 'g3'))
         term, c = triple_case(g1, g2, g3, case['f12'], case['f23'])
